@@ -64,8 +64,7 @@ fn verify_case(
         let _ = std::fs::create_dir_all(parent);
     }
     if std::fs::write(&path, content).is_err() {
-        t.violation(Violation::new("verify", case(), json!("scratch file written"), json!("write failed"), "harness: cannot write scratch file"));
-        return;
+        mc_core::run::machinery_fault("cannot write a scratch file");
     }
     // for DIST_SUBDIR names: an entry with the same file name under another directory is
     // recorded first; it is not a trailing sub-path of the file's path and must not be used
@@ -196,13 +195,20 @@ fn verify_case(
                 let _ = std::fs::create_dir_all(parent);
             }
             let _ = std::fs::remove_file(&link2);
-            if std::fs::write(&blob, content).is_ok() && std::os::unix::fs::symlink(&blob, &link2).is_ok() {
+            if !(std::fs::write(&blob, content).is_ok() && std::os::unix::fs::symlink(&blob, &link2).is_ok()) {
+                mc_core::run::machinery_fault("cannot create a symbolic link in the scratch directory");
+            }
+            {
                 let r = guard(|| {
                     let mut d = Distinfo::new();
                     d.insert(Entry::new(name, &link2, vec![Checksum::new(digest_of(algo), recorded_hash.to_string())], if nosize { None } else { recorded_size }));
                     (d.find_entry(&link2).is_ok(), d.verify_checksum(&link2, digest_of(algo)).map(|d| d.to_string()).map_err(|e| err_json(&e)), d.verify_size(&link2).map_err(|e| err_json(&e)))
                 });
                 let _ = std::fs::remove_file(&link2);
+                if let Err(m) = &r {
+                    bad("verification through a symbolic link panicked", json!("returns"), json!(format!("panic: {}", m)));
+                    return;
+                }
                 if let Ok((found, vc, vs)) = r {
                     let size_ok = if nosize || recorded_size.is_none() { vs.is_err() } else { vs.is_ok() == (recorded_size == Some(real_len)) };
                     if !(found && vc.is_ok() == (recorded_hash == truth) && size_ok) {
@@ -213,16 +219,25 @@ fn verify_case(
             }
         }
         let ldir = dir.join("lnk");
-        let _ = std::fs::create_dir_all(&ldir);
         let link = ldir.join(name);
+        if let Some(parent) = link.parent() {
+            let _ = std::fs::create_dir_all(parent);
+        }
         let _ = std::fs::remove_file(&link);
-        if std::os::unix::fs::symlink(&path, &link).is_ok() {
+        if std::os::unix::fs::symlink(&path, &link).is_err() {
+            mc_core::run::machinery_fault("cannot create a symbolic link in the scratch directory");
+        }
+        {
             let r = guard(|| {
                 let mut d = Distinfo::new();
                 d.insert(Entry::new(name, &link, vec![Checksum::new(digest_of(algo), recorded_hash.to_string())], if nosize { None } else { recorded_size }));
                 (d.verify_size(&link).map_err(|e| err_json(&e)), d.verify_checksum(&link, digest_of(algo)).map(|d| d.to_string()).map_err(|e| err_json(&e)), Distinfo::calculate_size(&link).map_err(|e| err_json(&e)))
             });
             let _ = std::fs::remove_file(&link);
+            if let Err(m) = &r {
+                bad("verification through a symbolic link panicked", json!("returns"), json!(format!("panic: {}", m)));
+                return;
+            }
             if let Ok((vs, vc, cs)) = r {
                 let size_ok = if nosize || recorded_size.is_none() { vs.is_err() } else { vs.is_ok() == (recorded_size == Some(real_len)) };
                 let ck_ok = vc.is_ok() == (recorded_hash == truth);
@@ -256,8 +271,7 @@ fn multi_case(t: &mut Tally, dir: &Path, name: &str, content: &[u8], algos: &[&s
     let path = dir.join(name);
     let case = || json!({"name": name, "content": bytes_json(content), "algos": algos, "wrong_mask": wrong, "via_text": via_text});
     if std::fs::write(&path, content).is_err() {
-        t.violation(Violation::new("multi", case(), json!("scratch file written"), json!("write failed"), "harness: cannot write scratch file"));
-        return;
+        mc_core::run::machinery_fault("cannot write a scratch file");
     }
     let recorded: Vec<(String, String, String)> = algos
         .iter()
@@ -555,7 +569,9 @@ fn replay(run: &Run, doc: &Value) -> Option<Violation> {
             check_lookup(&mut t, &rec, c["lookup"].as_str().unwrap_or(""), c["how"].as_u64().unwrap_or(0) as usize);
         }
         Some("history") => {
-            // re-run the recorded history
+            // re-run the recorded history (a panic is a reproduction too)
+            let r = guard(|| {
+                let mut t = Tally::new();
             let ins = ["f", "d/f", "e/d/f", "x/f"];
             let root = run.scratch_dir().to_string_lossy().into_owned();
             let look: Vec<String> = vec![format!("{}/e/d/f", root), format!("{}/d/f", root), "f".to_string()];
@@ -582,6 +598,12 @@ fn replay(run: &Run, doc: &Value) -> Option<Violation> {
                     }
                 }
             }
+                None
+            });
+            return match r {
+                Ok(v) => v,
+                Err(m) => Some(Violation::new("history", c.clone(), json!("returns"), json!(format!("panic: {}", m)), "Distinfo panicked")),
+            };
         }
         Some("multi") => {
             let dir = run.scratch_dir().join("replay");
